@@ -19,6 +19,7 @@ structure Drv where
   cache : Cache.State := Cache.mkState 1 0 (fun _ => 0)
   dur : Drv.ProtoDrv.St := {}
   txn : Drv.ProtoDrv.TxnSt := {}
+  space : Drv.ProtoDrv.SpaceSt := {}
   conc : Drv.ConcDrv.St := {}
   pin : Conc.Pin.State := {}
   ifl : Conc.InFlight.Set := {}
@@ -38,6 +39,10 @@ def stepLine (d : Drv) (line : String) : IO (Drv × String) := do
   | "dur" :: rest =>
     match Drv.ProtoDrv.handleDur d.dur rest with
     | some (s, out) => pure ({ d with dur := s }, out)
+    | none => pure (d, "bad-op")
+  | "space" :: rest =>
+    match Drv.ProtoDrv.handleSpace d.space rest with
+    | some (s, out) => pure ({ d with space := s }, out)
     | none => pure (d, "bad-op")
   | "txn" :: rest =>
     match Drv.ProtoDrv.handleTxn d.txn rest with
